@@ -1,0 +1,48 @@
+//go:build verif
+
+// Contracts for the govc deductive verifier (see /verif/DESIGN.md). This file
+// contains comments only and is compiled only with the build tag "verif".
+
+package metrics
+
+// ---------------------------------------------------------------------------
+// Byte-counting connection wrapper (C02, C15): every method returns exactly what the
+// wrapped connection returned and adds exactly that many bytes to its own counter.
+// ---------------------------------------------------------------------------
+
+//@ pred validMC(c *measuredConn) := c != nil && c.StreamConn != nil && c.readCount != nil && c.writeCount != nil && c.readCount != c.writeCount
+
+//@ func MeasureConn
+//@   props C02 C15 C18
+//@   ensures result != nil && typeis(result, "*metrics.measuredConn") && as(result, "*metrics.measuredConn") != nil
+//@   ensures[C15,counters-wired] as(result, "*metrics.measuredConn").StreamConn == conn && as(result, "*metrics.measuredConn").writeCount == bytesSent && as(result, "*metrics.measuredConn").readCount == bytesReceived
+
+//@ func (*measuredConn).Read
+//@   props C02 C15 C18
+//@   arith-trusted byte counters stay below 2^63
+//@   requires validMC(c)
+//@   ensures[C15,read-counted-exactly] *c.readCount == old(*c.readCount) + result.0 && *c.writeCount == old(*c.writeCount)
+//@   trace[C02,passes-through] each transport.StreamConn.Read satisfies $res0 == result.0 && $res1 == result.1 && sameslice($arg0, b)
+//@   trace[C02,one-read] exactly 1 transport.StreamConn.Read
+
+//@ func (*measuredConn).Write
+//@   props C02 C15 C18
+//@   arith-trusted byte counters stay below 2^63
+//@   requires validMC(c)
+//@   ensures[C15,write-counted-exactly] *c.writeCount == old(*c.writeCount) + result.0 && *c.readCount == old(*c.readCount)
+//@   trace[C02,passes-through] each transport.StreamConn.Write satisfies $res0 == result.0 && $res1 == result.1 && sameslice($arg0, b)
+//@   trace[C02,one-write] exactly 1 transport.StreamConn.Write
+
+//@ func (*measuredConn).WriteTo
+//@   props C02 C15 C18
+//@   arith-trusted byte counters stay below 2^63
+//@   requires validMC(c)
+//@   ensures[C15,read-counted-exactly] *c.readCount == old(*c.readCount) + result.0 && *c.writeCount == old(*c.writeCount)
+//@   trace[C02,one-copy] exactly 1 io.Copy
+//@   trace[C02,passes-through] each io.Copy satisfies $res0 == result.0 && $res1 == result.1
+
+//@ func (*measuredConn).ReadFrom
+//@   props C02 C15 C18
+//@   arith-trusted byte counters stay below 2^63
+//@   requires validMC(c)
+//@   ensures[C15,write-counted-exactly] *c.writeCount == old(*c.writeCount) + result.0 && *c.readCount == old(*c.readCount)
